@@ -249,6 +249,8 @@ class B:
             return base
         if base[0] == 'try' and projs[:2] == ('as:Continue', '0'):
             return B._with_projs(B._payload(base[1]), projs[2:])
+        if base[0] == 'try_lit' and projs[:2] == ('as:Continue', '0'):
+            return B._with_projs(base[1], projs[2:])
         if base[0] == 'awaited' and projs[:2] == ('as:Ready', '0'):
             return B._with_projs(('awaited_value', base[1]), projs[2:])
         if base[0] in ('arg', 'local'):
@@ -308,7 +310,11 @@ class B:
                     return ('awaited', self.origin(t['args'][0], depth + 1, through_calls))
                 if g == 'core::ops::try_trait::Try::branch':
                     # `x?`: the Continue payload is the Ok/Some payload of x
-                    return ('try', self.origin(t['args'][0], depth + 1, through_calls))
+                    inner_ = self.origin(t['args'][0], depth + 1, through_calls)
+                    if inner_[0] == 'agg' and inner_[1].get('var') in ('Ok', 'Some') and len(inner_[1].get('ops') or []) == 1:
+                        # `Ok(x)?` (an inlined helper hands its value over like this): the value is x
+                        return ('try_lit', self.origin(inner_[1]['ops'][0], depth + 1, through_calls))
+                    return ('try', inner_)
                 for n in (g, r):
                     if n and n in self.OK_PRESERVING:
                         return self.origin(t['args'][0], depth + 1, through_calls)
